@@ -3,6 +3,8 @@ package main
 // gen.go: case generators. A case is a pure function of (seed, index).
 
 import (
+	"os"
+
 	"verifharness/vkit"
 )
 
@@ -458,7 +460,11 @@ func genCase(r *vkit.Run, idx int) *caseSpec {
 	if g.Chance(1, 5) {
 		c.Transport = "tcp"
 	}
-	switch x := g.Intn(100); {
+	x := g.Intn(100)
+	if k := os.Getenv("VSPDY_KIND"); k != "" { // development only
+		x = map[string]int{"upload": 0, "stall": 30, "download": 40, "rules": 70, "chaos": 90}[k]
+	}
+	switch {
 	case x < 28:
 		genUpload(g, c)
 	case x < 36:
